@@ -12,9 +12,12 @@ def relevant(d, hist):
 
 def signature(d, hist):
     op = hist[-1]["op"]
+    uc = R.upsert_class(hist)
+    if uc:
+        return "index_vs_scan:upsert:%s" % uc
     qs = [q for q in d.get("queries", []) if q != "count"]
     cls = sorted({"pk" if q.startswith("pk") or q == "range" else "unique" if q.startswith("ua") or q == "anull" else "secondary" if q.startswith("b") else q for q in qs})
-    what = op["k"] + ("(" + op.get("c", "") + ")" if op["k"] == "update" else "")
+    what = R.opname(op)
     return "index_vs_scan:%s:%s:%s" % ("+".join(cls), what, ",".join(R.features(hist)) or "-")
 
 
@@ -56,6 +59,8 @@ def run(chk):
     st = relrun.focus_phase(chk, relevant, signature, "Gen_TxnFocus.cfg", 9 if chk.tier == "thorough" else 8, None if chk.tier == "thorough" else 4000)
     chk.cov["txn_focus"] = st
     chk.mark("txn_focus")
+    chk.cov["upsert"] = relrun.upsert_phase(chk, relevant, signature)
+    chk.mark("upsert")
     wide_phase(chk)
 
 
